@@ -470,11 +470,14 @@ class PrioPool(Observer):
 
     def __init__(self):
         self.retry = {}      # id(op) -> (list of ops to retry together, old_cpu, old_ram)
+        self.packed = {}     # id(op) -> operators of the assignment that last carried op (the observer's own record of the
+                             # container's contents, not what the result says it contained)
 
     def before_sched(self, w, results, new):
         for r in results:
             if r.failed():
-                rest = [op for op in r.ops if op.state() != S.COMPLETED]
+                full = self.packed.get(id(r.ops[0]), list(r.ops)) if r.ops else []
+                rest = [op for op in full if op.state() != S.COMPLETED]
                 for op in rest:
                     self.retry[id(op)] = (rest, r.cpu, r.ram, r.pool_id)
                 w.seen.add("oom")
@@ -494,6 +497,8 @@ class PrioPool(Observer):
                 if op.pipeline is not a.ops[0].pipeline:
                     return "C16:mixed_pipelines"
             hit = [op for op in a.ops if id(op) in self.retry]
+            for op in a.ops:
+                self.packed[id(op)] = list(a.ops)
             if hit:
                 rest, oc, orr, opool = self.retry[id(hit[0])]
                 if len(rest) != len(a.ops) or any(x is not y for x, y in zip(rest, a.ops)):
